@@ -1,8 +1,9 @@
 //! Schema discovery functionality to auto-detect field types in DBC files.
 
+use crate::field_parser::bounded_capacity;
 use crate::{DbcHeader, Error, FieldType, Result, Schema, SchemaField, StringBlock, StringRef};
 use std::collections::HashSet;
-use std::io::{Cursor, Read, Seek, SeekFrom};
+use std::io::{self, Cursor, Read, Seek, SeekFrom};
 
 /// Confidence level for a field type detection
 #[derive(Debug, Clone, Copy, PartialEq, Eq, PartialOrd, Ord)]
@@ -149,14 +150,25 @@ impl<'a> SchemaDiscoverer<'a> {
         cursor.seek(SeekFrom::Start(DbcHeader::SIZE as u64))?;
 
         // Fetch raw record data for analysis
-        let mut record_data = Vec::with_capacity(records_to_analyze as usize);
+        // Counts and sizes come from the header: nothing is reserved beyond what the
+        // remaining input can hold
+        let record_size = self.header.record_size as usize;
+        let mut record_data =
+            Vec::with_capacity(bounded_capacity(&cursor, records_to_analyze, record_size));
         for _ in 0..records_to_analyze {
-            let mut record = Vec::with_capacity(self.header.record_size as usize);
-            let mut buffer = vec![0u8; self.header.record_size as usize];
-            cursor.read_exact(&mut buffer)?;
+            let mut buffer = Vec::new();
+            cursor
+                .by_ref()
+                .take(record_size as u64)
+                .read_to_end(&mut buffer)?;
+            if buffer.len() != record_size {
+                return Err(io::Error::from(io::ErrorKind::UnexpectedEof).into());
+            }
 
             // Parse into u32 values (most DBC fields are 4 bytes)
-            let mut record_cursor = Cursor::new(&buffer);
+            let mut record_cursor = Cursor::new(buffer.as_slice());
+            let mut record =
+                Vec::with_capacity(bounded_capacity(&record_cursor, self.header.field_count, 4));
             for _ in 0..self.header.field_count {
                 let mut buf = [0u8; 4];
                 record_cursor.read_exact(&mut buf)?;
@@ -190,12 +202,13 @@ impl<'a> SchemaDiscoverer<'a> {
 
     /// Analyze all fields to determine their types
     fn analyze_fields(&self, record_data: &[Vec<u32>]) -> Result<Vec<DiscoveredField>> {
-        let mut discovered_fields = Vec::with_capacity(self.header.field_count as usize);
-
         // If no records to analyze, return empty fields
         if record_data.is_empty() {
-            return Ok(discovered_fields);
+            return Ok(Vec::new());
         }
+
+        // Every analyzed record holds field_count values, so the count is backed by data
+        let mut discovered_fields = Vec::with_capacity(self.header.field_count as usize);
 
         // Analyze each field
         for field_index in 0..self.header.field_count as usize {
